@@ -6,4 +6,5 @@ SPECIFICATION Spec
 INVARIANT EmitPlain
 INVARIANT EmitPtr
 INVARIANT EmitMutants
+INVARIANT EmitBitmap
 CHECK_DEADLOCK FALSE
